@@ -376,3 +376,27 @@ B('g14f_not_rounded', ['C14'], 'R14.f', (ST, 'unix_mtime = round(os.path.getmtim
 B('g14f_caller_asks_for_millis', ['C14'], 'R14.f',
   (ST, "            mtime = get_file_mtime(path)\n        except (ValueError, IOError, OSError):  # TODO",
        "            mtime = get_file_mtime(path, rounding=3)\n        except (ValueError, IOError, OSError):  # TODO"))
+
+# ------------------------------------------------------------------ R14.e: arguments collected in a dict, path joined under another name
+_OPTS = ("        options = {\n"
+         "            'cache_timeout': self.cache_timeout,\n"
+         "            'cached_modify_time': %s,\n"
+         "            'mimetype': None,\n"
+         "            'default_text_mime': self.default_text_mime,\n"
+         "            'default_binary_mime': self.default_binary_mime,\n"
+         "            'file_wrapper': request.environ.get('wsgi.file_wrapper', FileWrapper),\n"
+         "        }\n")
+T('g14_glue_options_dict', ['C14'],
+  (ST, _GLUE_APP, _OPTS % 'request.if_modified_since' + "        return build_file_response(full_path, **options)\n"),
+  (ST, "            if not isinstance(path, (str, bytes)):\n                path = '/'.join(path)\n            full_path = find_file(self.search_paths, path)\n",
+       "            url_path = path\n            if not isinstance(url_path, (str, bytes)):\n                url_path = '/'.join(url_path)\n"
+       "            full_path = find_file(self.search_paths, url_path)\n"))
+B('g14_glue_options_dict_no_client_time', ['C14'], 'R14.e',
+  (ST, _GLUE_APP, _OPTS % 'None' + "        return build_file_response(full_path, **options)\n"))
+B('g14_glue_options_dict_key_omitted', ['C14'], 'R14.e',
+  (ST, _GLUE_APP, (_OPTS % 'request.if_modified_since').replace("            'cached_modify_time': request.if_modified_since,\n", '')
+   + "        return build_file_response(full_path, **options)\n"))
+B('g14_path_joined_twice', ['C14'], 'R14.e',
+  (ST, "            if not isinstance(path, (str, bytes)):\n                path = '/'.join(path)\n            full_path = find_file(self.search_paths, path)\n",
+       "            url_path = '/'.join(path)\n            rel = '/'.join(url_path)\n"
+       "            full_path = find_file(self.search_paths, rel)\n"))
